@@ -46,18 +46,19 @@ MoveAssign == \E x, y \in H :
           /\ IsLive(x) /\ IsLive(y) /\ x # y
           /\ Put(I_MoveAssign(St, x, y)) /\ fault' = fault
           /\ Log([op |-> "MoveAssign", h |-> x, from |-> y, fail |-> FALSE])
-Recreate == \E x \in H, d \in DimSet, al \in AlignSet :
+\* (both spellings of each recreate: with and without a fill value; the storage protocol is the same)
+Recreate == \E x \in H, d \in DimSet, al \in AlignSet, fill \in BOOLEAN :
           /\ IsLive(x)
           /\ (I_RecreateAllocates(St, x, d[1], d[2], al, 0, FALSE) => SwapOk(img[x].alloc, 0))
           /\ \/ (Put(I_Recreate(St, x, d[1], d[2], al, 0, FALSE)) /\ fault' = fault)
              \/ (fault = "none" /\ I_RecreateAllocates(St, x, d[1], d[2], al, 0, FALSE)
                  /\ Put(I_RecreateFailed(St, x, al)) /\ fault' = "alloc")
-          /\ Log([op |-> "Recreate", h |-> x, w |-> d[1], hh |-> d[2], al |-> al, fail |-> fault' # fault])
-RecreateAlloc == \E x \in H, d \in DimSet, al \in AlignSet, a \in AllocSet :
+          /\ Log([op |-> IF fill THEN "RecreateFill" ELSE "Recreate", h |-> x, w |-> d[1], hh |-> d[2], al |-> al, fail |-> fault' # fault])
+RecreateAlloc == \E x \in H, d \in DimSet, al \in AlignSet, a \in AllocSet, fill \in BOOLEAN :
           /\ IsLive(x)
           /\ (I_RecreateAllocates(St, x, d[1], d[2], al, a, TRUE) => SwapOk(img[x].alloc, a))
           /\ Put(I_Recreate(St, x, d[1], d[2], al, a, TRUE)) /\ fault' = fault
-          /\ Log([op |-> "RecreateAlloc", h |-> x, w |-> d[1], hh |-> d[2], al |-> al, a |-> a, fail |-> FALSE])
+          /\ Log([op |-> IF fill THEN "RecreateFillAlloc" ELSE "RecreateAlloc", h |-> x, w |-> d[1], hh |-> d[2], al |-> al, a |-> a, fail |-> FALSE])
 Swap == \E x, y \in H :
           /\ IsLive(x) /\ IsLive(y) /\ x < y /\ (POCS \/ img[x].alloc = img[y].alloc)       \* documented precondition
           /\ Put(I_SwapWith(St, x, y)) /\ fault' = fault
